@@ -1,8 +1,85 @@
-(* C07 — property theorems only.  Each is closed by `exact` of a lemma from proofs/C07_*.v. *)
+(* C07 — block signatures: property theorems only.  Each is closed by `exact` of a lemma from
+   proofs/C07_*.v.  Model: model/C07_model.v (sign_locator, parse_signed, verify, sign_manifest,
+   get_gate; times explicit: exp = expiry in seconds, now = time.Now() in ns, ttl in ns).
+   Cryptography: nothing is assumed about HMAC-SHA1; where "different input => different
+   signature" is needed the conclusion carries an explicit collision disjunct. *)
 From Coq Require Import NArith List String Ascii Bool.
-From AV Require Import lib.Str lib.Sha1 lib.TokSplit model.C07_model proofs.C07_msg.
+From AV Require Import lib.Str lib.Sha1 lib.TokSplit model.C07_model model.C07_run
+     proofs.C07_msg proofs.C07_parse proofs.C07_verify proofs.C07_manifest proofs.C07_spec.
 Import ListNotations.
 Local Open Scope string_scope.
+
+(* The recogniser used by the model accepts exactly the language of SignedLocatorRe
+     ^(xdigit{32})(\+[0-9]+)?(HINT* )(\+A(xdigit{40})@(xdigit{8}))(HINT* )$   HINT = \+[B-Z][A-Za-z0-9@_-]*
+   and returns groups 1, 6, 7.  plus_fields [f1;..;fn] = "+f1+...+fn". *)
+Theorem C07_parse_signed_is_regexp : forall loc h sg e,
+  parse_signed loc = Some (h, sg, e) <->
+  exists szl hs1 hs2,
+    (szl = [] \/ exists sz, szl = [sz] /\ is_size sz = true) /\
+    Forall (fun f => is_hint f = true) hs1 /\ Forall (fun f => is_hint f = true) hs2 /\
+    (String.length h = 32 /\ all_chars is_xdigit h = true) /\
+    (String.length sg = 40 /\ all_chars is_xdigit sg = true) /\
+    (String.length e = 8 /\ all_chars is_xdigit e = true) /\
+    loc = h ++ plus_fields (szl ++ hs1 ++ [("A" ++ sg ++ "@" ++ e)%string] ++ hs2)%list.
+Proof. exact parse_signed_shape. Qed.
+Print Assumptions C07_parse_signed_is_regexp.
+
+(* signed_shape loc h sg e (proofs/C07_parse.v) is the right-hand side above. *)
+
+(* A locator h[+size][+hints] signed for (token, expiry, ttl, key) verifies with the same token,
+   ttl and key at any time up to the expiry. *)
+Theorem C07_sign_then_verify : forall loc h tok exp ttl key now,
+  (exists szl hs, (szl = [] \/ exists sz, szl = [sz] /\ is_size sz = true) /\
+                  Forall (fun f => is_hint f = true) hs /\
+                  (String.length h = 32 /\ all_chars is_xdigit h = true) /\
+                  loc = h ++ plus_fields (szl ++ hs)%list) ->
+  key <> "" -> tok <> "" -> (exp < 4294967296)%N -> (now <= exp * 1000000000)%N ->
+  verify (sign_locator loc tok exp ttl key) tok ttl key now = VOk.
+Proof. exact sign_then_verify. Qed.
+Print Assumptions C07_sign_then_verify.
+
+(* Verification succeeds if and only if the locator has the regexp's shape, its expiry has not
+   passed, and its signature field is the HMAC of exactly (hash, presented token, expiry field,
+   ttl) under the presented key. *)
+Theorem C07_verify_iff : forall loc tok ttl key now,
+  verify loc tok ttl key now = VOk <->
+  exists h sg e ts, signed_shape loc h sg e /\ hexnum e = Some ts /\ (now <= ts * 1000000000)%N /\
+                    sg = hmac_sha1_hex key (h ++ "@" ++ tok ++ "@" ++ e ++ "@" ++ hexn (ttl / 1000000000)).
+Proof. exact verify_ok_iff. Qed.
+Print Assumptions C07_verify_iff.
+
+(* A well-formed signature whose expiry has passed is reported as expired, whatever the signature,
+   token, ttl and key are ... *)
+Theorem C07_expired_before_invalid : forall loc h sg e ts tok ttl key now,
+  signed_shape loc h sg e -> hexnum e = Some ts -> (ts * 1000000000 < now)%N ->
+  verify loc tok ttl key now = VExpired.
+Proof. exact expired_before_invalid. Qed.
+Print Assumptions C07_expired_before_invalid.
+
+(* ... and only then *)
+Theorem C07_expired_iff : forall loc tok ttl key now,
+  verify loc tok ttl key now = VExpired <->
+  exists h sg e ts, signed_shape loc h sg e /\ hexnum e = Some ts /\ ~ (now <= ts * 1000000000)%N.
+Proof. exact verify_expired_iff. Qed.
+Print Assumptions C07_expired_iff.
+
+(* Everything else is Missing (not of the regexp's shape) or Invalid (shape fine, unexpired, wrong
+   signature). *)
+Theorem C07_missing_or_invalid_otherwise : forall loc tok ttl key now,
+  ~ (exists h sg e ts, signed_shape loc h sg e /\ hexnum e = Some ts /\ (now <= ts * 1000000000)%N /\
+                       sg = make_sig key h tok e (ttl_hex ttl)) ->
+  ~ (exists h sg e ts, signed_shape loc h sg e /\ hexnum e = Some ts /\ ~ (now <= ts * 1000000000)%N) ->
+  (verify loc tok ttl key now = VMissing /\ forall h sg e, ~ signed_shape loc h sg e) \/
+  (verify loc tok ttl key now = VInvalid /\
+   exists h sg e ts, signed_shape loc h sg e /\ hexnum e = Some ts /\ (now <= ts * 1000000000)%N /\
+                     sg <> make_sig key h tok e (ttl_hex ttl)).
+Proof. exact missing_or_invalid_otherwise. Qed.
+Print Assumptions C07_missing_or_invalid_otherwise.
+
+Theorem C07_missing_iff : forall loc tok ttl key now,
+  verify loc tok ttl key now = VMissing <-> forall h sg e, ~ signed_shape loc h sg e.
+Proof. exact verify_missing_iff. Qed.
+Print Assumptions C07_missing_iff.
 
 (* hash@token@expiry@ttl determines its four fields (tokens may contain '@' and '+') *)
 Theorem C07_msg_injective : forall h t e l h' t' e' l',
@@ -11,3 +88,139 @@ Theorem C07_msg_injective : forall h t e l h' t' e' l',
   sig_msg h t e l = sig_msg h' t' e' l' -> h = h' /\ t = t' /\ e = e' /\ l = l'.
 Proof. exact msg_injective. Qed.
 Print Assumptions C07_msg_injective.
+
+(* Perturbations.  sg is a signature made for (key, h, tok, e, ttl).  A presentation loc' (of the
+   regexp's shape, with fields h', sg', e') with tok', ttl', key' that keeps the signature field but
+   changes any signed field -- hash, token, expiry field, ttl (in whole seconds) or key -- or keeps all
+   signed fields but changes the signature field, is not accepted; the only alternative is that the two
+   (key, message) pairs are an explicit HMAC-SHA1 collision.  (A presentation not of the regexp's shape,
+   e.g. with the signature removed, is Missing by C07_missing_iff.) *)
+Theorem C07_perturbation_rejected : forall key h tok e ttl loc' tok' ttl' key' now h' sg' e',
+  String.length h = 32 -> has_char "@" e = false ->
+  signed_shape loc' h' sg' e' ->
+  let sg := make_sig key h tok e (ttl_hex ttl) in
+  let same_fields := key' = key /\ h' = h /\ tok' = tok /\ e' = e /\ ttl_hex ttl' = ttl_hex ttl in
+  (sg' = sg /\ ~ same_fields) \/ (sg' <> sg /\ same_fields) ->
+  verify loc' tok' ttl' key' now <> VOk \/
+  ((key, sig_msg h tok e (ttl_hex ttl)) <> (key', sig_msg h' tok' e' (ttl_hex ttl')) /\
+   hmac_sha1_hex key (sig_msg h tok e (ttl_hex ttl)) = hmac_sha1_hex key' (sig_msg h' tok' e' (ttl_hex ttl'))).
+Proof. exact perturbation_rejected. Qed.
+Print Assumptions C07_perturbation_rejected.
+
+(* changing the signature field alone is rejected outright (no collision alternative) *)
+Theorem C07_signature_change_rejected : forall key h tok e ttl loc' now sg',
+  String.length h = 32 -> has_char "@" e = false ->
+  signed_shape loc' h sg' e -> sg' <> make_sig key h tok e (ttl_hex ttl) ->
+  verify loc' tok ttl key now <> VOk.
+Proof. exact signature_change_rejected. Qed.
+Print Assumptions C07_signature_change_rejected.
+
+(* the ttl enters the signature as its number of whole seconds, printed injectively *)
+Theorem C07_ttl_field_injective : forall a b, ttl_hex a = ttl_hex b -> (a / 1000000000 = b / 1000000000)%N.
+Proof. exact ttl_hex_inj. Qed.
+Print Assumptions C07_ttl_field_injective.
+
+(* the signature is 40 lowercase hexadecimal digits *)
+Theorem C07_sig_is_lowercase_hex40 : forall key h tok e l,
+  String.length (make_sig key h tok e l) = 40 /\ all_chars is_lhex (make_sig key h tok e l) = true.
+Proof. exact sig_hex40. Qed.
+Print Assumptions C07_sig_is_lowercase_hex40.
+
+(* Go's SignLocator equals the API server's Blob.sign_locator from expiry 2^28 on (below, Go pads the
+   expiry to eight digits and Rails does not: Example go_rails_differ_below_2_28) *)
+Theorem C07_go_equals_rails : forall loc tok exp ttl key,
+  key <> "" -> tok <> "" -> (268435456 <= exp)%N ->
+  rails_sign_locator loc tok exp (ttl / 1000000000)%N key = sign_locator loc tok exp ttl key.
+Proof. exact go_equals_rails. Qed.
+Print Assumptions C07_go_equals_rails.
+
+(* SignManifest.  chunks m = the maximal runs of blank (false) / non-blank (true) characters of m;
+   their concatenation is m; blank runs are copied, tokens are mapped through sign_tok. *)
+Theorem C07_sign_manifest_shape : forall m tokn exp ttl key,
+  sign_manifest m tokn exp ttl key =
+    concat_s (map (fun ch : bool * string => if fst ch then sign_tok_k make_sig tokn exp ttl key (snd ch) else snd ch) (chunks m)) /\
+  concat_s (map snd (chunks m)) = m /\
+  Forall (fun ch => snd ch <> "" /\ all_chars (fun c => Bool.eqb (negb (is_ws c)) (fst ch)) (snd ch) = true) (chunks m) /\
+  alternating (chunks m).
+Proof. exact sign_manifest_shape. Qed.
+Print Assumptions C07_sign_manifest_shape.
+
+(* a token that does not begin with 32 lowercase hex digits (stream name, file token) is unchanged *)
+Theorem C07_sign_manifest_other_tokens : forall tokn exp ttl key t,
+  is_blk t = false -> sign_tok_k make_sig tokn exp ttl key t = t.
+Proof. exact not_blk_unchanged. Qed.
+Print Assumptions C07_sign_manifest_other_tokens.
+
+(* a block token keeps its first field and every hint not starting with A, in order; all +A hints
+   are gone; exactly one new +A hint is appended *)
+Theorem C07_sign_manifest_block_token : forall tokn exp ttl key t,
+  is_blk t = true -> key <> "" -> tokn <> "" ->
+  let e := hex08 exp in
+  let sg := make_sig key (hd "" (nonA_fields t)) tokn e (ttl_hex ttl) in
+  split_on "+" (sign_tok_k make_sig tokn exp ttl key t) = (nonA_fields t ++ [("A" ++ sg ++ "@" ++ e)%string])%list /\
+  Forall (fun f => is_Afield f = false) (tl (nonA_fields t)).
+Proof. exact sign_tok_fields. Qed.
+Print Assumptions C07_sign_manifest_block_token.
+
+(* ... and that signature verifies when what remains is a well-formed unsigned locator *)
+Theorem C07_sign_manifest_verifies : forall tokn exp ttl key t h now,
+  is_blk t = true -> key <> "" -> tokn <> "" -> unsigned_shape (strip_sigs t) h ->
+  (exp < 4294967296)%N -> (now <= exp * 1000000000)%N ->
+  verify (sign_tok_k make_sig tokn exp ttl key t) tokn ttl key now = VOk.
+Proof. exact sign_tok_verifies. Qed.
+Print Assumptions C07_sign_manifest_verifies.
+
+(* keepstore GET with blob signing on: volume access only behind an accepted signature for the
+   requesting token; expired => 401; anything else => 403 *)
+Theorem C07_keepstore_get_gate : forall path auth ttl key now,
+  match get_gate true path auth ttl key now with
+  | GVolume h => route_get path = Some h /\ accepts (drop 1 path) (api_token auth) ttl key now
+  | GDeny c => (c = 401%N /\ wf_expired (drop 1 path) now) \/
+               (c = 403%N /\ ~ accepts (drop 1 path) (api_token auth) ttl key now /\ ~ wf_expired (drop 1 path) now)
+  | GBadRequest => route_get path = None
+  | GRemote => contains "+R" (drop 1 path) = true /\ contains "+A" (drop 1 path) = false
+  end.
+Proof. exact keepstore_get_gate. Qed.
+Print Assumptions C07_keepstore_get_gate.
+
+Theorem C07_keepstore_data_only_if_valid : forall path auth ttl key now stored,
+  get_status (get_gate true path auth ttl key now) stored = Some 200%N ->
+  exists h sg e ts, signed_shape (drop 1 path) h sg e /\ hexnum e = Some ts /\ (now <= ts * 1000000000)%N /\
+                    sg = make_sig key h (api_token auth) e (ttl_hex ttl).
+Proof. exact keepstore_data_only_if_valid. Qed.
+Print Assumptions C07_keepstore_data_only_if_valid.
+
+(* The evaluator: the boolean specification used on the implementation's observations reflects the
+   statements above, the signature table is transparent, and the model satisfies the specification. *)
+Theorem C07_spec_verify_reflects : forall loc tok ttl key now o,
+  spec_verify_k make_sig loc tok ttl key now o = true <->
+  ((o = VOk <-> accepts loc tok ttl key now) /\ (o = VExpired <-> wf_expired loc now)).
+Proof. exact spec_verify_reflects. Qed.
+Print Assumptions C07_spec_verify_reflects.
+
+Theorem C07_spec_get_reflects : forall signing path auth ttl key now stored code body_ok,
+  spec_get_k make_sig signing path auth ttl key now stored code body_ok = true <->
+  GetSpec signing path auth ttl key now stored code body_ok.
+Proof. exact spec_get_reflects. Qed.
+Print Assumptions C07_spec_get_reflects.
+
+Theorem C07_check_case_eq : forall c, check_case c = code_of (model_b c) (spec_b c).
+Proof. exact check_case_eq. Qed.
+Print Assumptions C07_check_case_eq.
+
+Theorem C07_model_meets_spec :
+  (forall loc tok ttl key now, spec_verify_k make_sig loc tok ttl key now (verify loc tok ttl key now) = true) /\
+  (forall loc tok exp ttl key, spec_sign_k make_sig loc tok exp ttl key (sign_locator loc tok exp ttl key) = true) /\
+  (forall m tokn exp ttl key, spec_manifest_k make_sig m tokn exp ttl key (sign_manifest m tokn exp ttl key) = true).
+Proof. exact (conj model_verify_meets_spec (conj model_sign_meets_spec model_manifest_meets_spec)). Qed.
+Print Assumptions C07_model_meets_spec.
+
+(* the evaluator's "perturbation rejected" clause can fail on the model's verdict only through an
+   explicit HMAC-SHA1 collision *)
+Theorem C07_model_pert_meets_spec : forall key h tok e ttl p now,
+  String.length h = 32 -> has_char "@" e = false ->
+  p_obs p = verify (p_loc p) (p_tok p) (p_ttl p) (p_key p) now ->
+  spec_pert_b (key, h, tok, e, ttl_hex ttl) (make_sig key h tok e (ttl_hex ttl)) p = false ->
+  exists h' e', hmac_collision key (sig_msg h tok e (ttl_hex ttl)) (p_key p) (sig_msg h' (p_tok p) e' (ttl_hex (p_ttl p))).
+Proof. exact model_pert_meets_spec. Qed.
+Print Assumptions C07_model_pert_meets_spec.
